@@ -159,6 +159,19 @@ CHECKS = {
               "modes and join_values_w_shifts / join_sig_w_time_shift against the definition."),
         design_ref="DESIGN.md section 4, C19",
         note=LEVEL_NOTE_N + "; start=True constrained as a relation (the statement fixes only the length)"),
+    "C06": dict(
+        engine="Fourier",
+        technique="TLA+ integer model of the transform length / bin count and the definitional DFT over the FP carrier; TLC exhaustive (all lengths, all short records) with the implementation in lock-step; TLC trace validation with one event per bin",
+        category="model_checking",
+        text=("MC_Fourier: transform length for every npts in 2..300 (quick) / 2..1100 x p2_plus 0..3 (power of two, minimal, >= npts) with "
+              "the bin counts of Signal.gen_fa_spectrum / calc_fa_spectrum (padded, unpadded, n = npts+1) in lock-step; every record over "
+              "{-1,0,1,2} to length 5 / 6: Linear, TrailingZeros, Parseval (with Nyquist term) and InverseExact hold of the definitional DFT, "
+              "and eight ways of asking for a spectrum (Signal / AccSignal default, p2_plus 0 / 1, n = npts, npts+1, 2 npts, "
+              "generate_fa_spectrum padded / unpadded) give dt x DFT on the grid k/(N dt). Trace_Fourier: random records (2^k, 2^k +- 1, odd, "
+              "even) re-transformed by TLC bin by bin, object = array level, max_fa_period on noisy sinusoids with random phase, "
+              "fas2values / fas2signal on even lengths."),
+        design_ref="DESIGN.md section 4, C06",
+        note=LEVEL_NOTE_N + "; explicit n >= npts; inverse helper on even transform lengths"),
 }
 
 NOT_YET = {}
